@@ -148,6 +148,52 @@ def rule_refcount_outputs(repo: Repo, rep: Report) -> None:
                            f"subscribed, or never released")
 
 
+def rule_refcount_not_self_held(repo: Repo, rep: Report) -> None:
+    """A ref-counted group/window must not be handed to a user callable whose result the operator itself subscribes
+    and holds under that very RefCountDisposable (the dependent would keep the count above zero forever)."""
+    rep.rule("G2-no-self-reference", "values tied to the RefCountDisposable flow only downstream, never into a user "
+                                     "selector whose subscription the operator holds itself", floor=1)
+    m = model_of(repo)
+    for f in sorted(m.l2_functions(), key=lambda f: f.ref):
+        rvars = set()
+        for g in f.walk():
+            if g.is_func:
+                for n in g.direct_nodes():
+                    if isinstance(n, (ast.Assign, ast.AnnAssign)) and isinstance(n.value, ast.Call) \
+                            and call_name(n.value) == "RefCountDisposable":
+                        t = n.targets[0] if isinstance(n, ast.Assign) else n.target
+                        if isinstance(t, ast.Name):
+                            rvars.add(t.id)
+        if not rvars:
+            continue
+        for g in f.walk():
+            if not g.is_func:
+                continue
+            for n in g.direct_nodes():
+                if not (isinstance(n, ast.Call) and isinstance(n.func, ast.Name)):
+                    continue
+                o = g.owner(n.func.id)
+                # callee is a parameter (or alias of one) of an enclosing *factory* function: a user selector
+                if o is None or o.is_module or o is f or f.is_ancestor_of(o):
+                    continue
+                if not n.args:
+                    continue
+                groups = []
+                for a in n.args:
+                    e = _expand(g, a, 3, rvars)
+                    for x in ast.walk(e):
+                        if isinstance(x, ast.Call) and call_name(x) in ("add_ref", "GroupedObservable", "Subject"):
+                            groups.append(x)
+                if not groups:
+                    continue
+                tied = [x for x in groups if {a.id for a in list(x.args) + [k.value for k in x.keywords]
+                                              if isinstance(a, ast.Name)} & rvars]
+                rep.ob("G2-no-self-reference", g, short(n), not tied,
+                       f"`{short(n)}` hands a ref-counted group to a user selector; the operator subscribes the selector's "
+                       f"result and keeps that subscription inside the disposable guarded by the same ref count, so the "
+                       f"count never reaches zero and the source subscription is never released")
+
+
 def _expand(g: Fn, e: ast.AST, depth: int, stop=frozenset()) -> ast.AST:
     """Substitute local single-assignment names by their defining expression (depth-bounded)."""
     if depth == 0:
